@@ -78,8 +78,11 @@ def gen_network(rng):
     signs, lights = [], []
     for _ in range(rng.randint(1, 3)):
         nid += 1
-        net.add_traffic_sign(TrafficSign(nid, [TrafficSignElement(TrafficSignIDZamunda.MAX_SPEED, ["50"])], set(),
-                                         np.array([0.0, float(nid)])), set(rng.sample(ids, rng.randint(1, min(3, n)))))
+        on = set(rng.sample(ids, rng.randint(1, min(3, n))))
+        # the sign first occurs on one of the lanelets it is valid on (sometimes on none that is recorded)
+        first = {rng.choice(sorted(on))} if rng.random() < 0.8 else set()
+        net.add_traffic_sign(TrafficSign(nid, [TrafficSignElement(TrafficSignIDZamunda.MAX_SPEED, ["50"])], first,
+                                         np.array([0.0, float(nid)])), on)
         signs.append(nid)
     for _ in range(rng.randint(1, 3)):
         nid += 1
@@ -118,6 +121,15 @@ def snap(net):
         out["lights"][s.traffic_light_id] = S.snap_light(s)
     for x in net.intersections:
         out["intersections"][x.intersection_id] = S.snap_intersection(x)
+    return out
+
+
+def snap_all(net):
+    """everything, including what the statement's reference list does not name (first occurrences of signs)"""
+    from vf.oracle import structure as S
+    out = snap(net)
+    for s_ in net.traffic_signs:
+        out["signs"][s_.traffic_sign_id] = S.snap_sign(s_, first_occurrence=True)
     return out
 
 
@@ -389,7 +401,13 @@ def run(ctx):
                         check_after(op, before, a, removed, set(before["signs"]), set(before["lights"]),
                                     set(before["intersections"]), wit, cutout=True)
                     else:
+                        src_all = snap_all(net)
                         new = LaneletNetwork.create_from_lanelet_network(net, shape, types)
+                        ctx.counter("cutout.source-rechecked")
+                        dfs_ = S.diff(_sk(src_all), _sk(snap_all(net)), S.real_ok_bits)
+                        if dfs_:
+                            ctx.violation("C10/cutout/changed-the-source-network" + S.generalise(dfs_[0][0]),
+                                          "%s: %s -> %s" % dfs_[0], wit)
                         removed, undecided = [], False
                         for l in lids:
                             la = net.find_lanelet_by_id(l)
@@ -431,15 +449,15 @@ def run(ctx):
                     # The history goes on with the cut-out (or, every fourth time, with the source); the other one is
                     # watched from now on.
                     if (i + step) % 4 == 1 and op != "cutout.list" and new.lanelets:
-                        watched.append((new, snap(new), "cut-out"))
+                        watched.append((new, snap_all(new), "cut-out"))
                         ctx.feature("history-continues-on-source-after-cutout")
                     else:
-                        watched.append((net, snap(net), "source"))
+                        watched.append((net, snap_all(net), "source"))
                         sc = Scenario(0.1)
                         sc.add_objects(new)
                 for wn, ws, role in watched:
                     ctx.counter("watched-network-rechecked")
-                    dfs = S.diff(_sk(ws), _sk(snap(wn)), S.real_ok_bits)
+                    dfs = S.diff(_sk(ws), _sk(snap_all(wn)), S.real_ok_bits)
                     if dfs:
                         ctx.violation("C10/later-operation-changed-the-other-network/%s%s" % (role, S.generalise(dfs[0][0])),
                                       "%s of an earlier cut-out changed at %s: %s -> %s although the operation was "
